@@ -169,6 +169,11 @@ func (op Addp) Disassembler(arch *Arch, instr string) (string, error) {
 }
 
 func (op Addp) Simulate(vm *VM, instr string) error {
+	// The pipeline phase belongs to the VM executing the instruction: the opcode object is one
+	// process-wide value shared by every processor of every VM.
+	phase, _ := vm.Extra_states["addp_pipeline"].(bool)
+	op.pipeline = &phase
+	defer func() { vm.Extra_states["addp_pipeline"] = phase }()
 	regBits := vm.Mach.R
 	regDest := get_id(instr[:regBits])
 	regSrc := get_id(instr[regBits : regBits*2])
